@@ -994,14 +994,19 @@ impl C15 {
                     return fail(i, "panic", p);
                 }
             }
-            // invariant: a bit both streams flag as initialised has one value
+            // invariant (the property verbatim): a bit reported initialised under one choice of the
+            // uninitialised bits has the same value under every other choice — whatever the other
+            // choice's own mask says. (All streams share the initialised inputs by construction.)
             for slot in 0..8 {
                 for a in 0..G {
-                    for b in a + 1..G {
+                    for b in 0..G {
+                        if a == b {
+                            continue;
+                        }
                         let (wa, wb) = (pools[a][slot], pools[b][slot]);
-                        let both = mask_of(&wa) & mask_of(&wb);
-                        if both & (wa.get() ^ wb.get()) != 0 {
-                            return fail(i, "unsound-init-bit", format!("slot {slot}: garbage streams {a} and {b} give x{:04X} (mask x{:04X}) and x{:04X} (mask x{:04X}); bits x{:04X} are reported initialised by both but differ", wa.get(), mask_of(&wa), wb.get(), mask_of(&wb), both & (wa.get() ^ wb.get())));
+                        let bad = mask_of(&wa) & (wa.get() ^ wb.get());
+                        if bad != 0 {
+                            return fail(i, "unsound-init-bit", format!("slot {slot}: under garbage stream {a} the word is x{:04X} with mask x{:04X}; under stream {b} it is x{:04X} (mask x{:04X}); bits x{bad:04X} are reported initialised under stream {a} but depend on the garbage", wa.get(), mask_of(&wa), wb.get(), mask_of(&wb)));
                         }
                     }
                 }
@@ -1072,7 +1077,7 @@ impl C15 {
         };
         let total: u32 = m.ops.iter().map(|o| if let Op::Step(k) = o { *k } else { 0 }).sum::<u32>().min(m.max_ticks);
         let mut steps = 0u64;
-        let chk = |wa: &Word, wb: &Word| mask_of(wa) & mask_of(wb) & (wa.get() ^ wb.get());
+        let chk = |wa: &Word, wb: &Word| (mask_of(wa) | mask_of(wb)) & (wa.get() ^ wb.get());
         for i in 0..total {
             let (ra, rb) = (guarded(|| a.sim.step_in()), guarded(|| b.sim.step_in()));
             let (ra, rb) = match (ra, rb) {
